@@ -36,11 +36,11 @@ checks = {
    note="Trusted: Miri (stands in for the AddressSanitizer named in the property and is stricter), the red-zone allocator, the models of C02/C11. Miri runs are few (hundreds per quick run, thousands per thorough run) because the interpreter is slow.",
    tech="deterministic simulation with crash injection (caught panics, lying/panicking Read and Write), reference model after each crash; Miri and allocator red zones as memory oracles"),
  "C13": dict(cat="exploration", ref="DESIGN.md §4 C13",
-   text="Seeded search over byte strings x all 12 integer types x both scanner families x scan offsets x every amount of already-buffered data (which selects the 8-byte or the byte-wise path) x read plans for the remainder; the *_multi and the simple variant are both run on a real DeferredReader over the simulated source and compared with a decimal-string reference and with each other. The 8-byte kernel is sampled (kernel-sweep mode), the evidence reports how many of the 2305 (digit count, terminator byte) cases were hit.",
+   text="Seeded search over byte strings x all 12 integer types x both scanner families x scan offsets x every amount of already-buffered data (which selects the 8-byte or the byte-wise path) x read plans for the remainder; the *_multi and the simple variant are both run on a real DeferredReader over the simulated source and compared with a decimal-string reference and with each other. A second component scans whole token streams on ONE reader (tokenizer loop: scan, advance, scan ...), so that state is carried from call to call. The 8-byte kernel is sampled (kernel-sweep mode), the evidence reports how many of the 1969 reachable (digit count, terminator byte) cases were hit.",
    note="Trusted: the decimal-string reference (~40 lines), std's integer Display. Exhaustive enumeration of the kernel is a different technique and is not claimed.",
    tech="deterministic simulation: scanners on the real reader with the buffered amount and refill schedule chosen by the simulator; differential fast-vs-simple plus decimal-string reference"),
  "C16": dict(cat="exploration", ref="DESIGN.md §4 C16",
-   text="Seeded search over short strings on a whitespace/newline alphabet x start offsets x helpers x patterns x pre-buffered amounts x read plans (incl. one byte per read) on a real DeferredReader over the simulated source: returned offset against a reference scanner, nothing consumed, and request-minimality read off the source's call log (no read() issued once the deciding byte was delivered; none at all for the empty pattern).",
+   text="Seeded search over short strings on a whitespace/newline alphabet x start offsets x helpers x patterns x pre-buffered amounts x read plans (incl. one byte per read) on a real DeferredReader over the simulated source: returned offset against a reference scanner, nothing consumed, and request-minimality read off the source's call log (no read() issued once the deciding byte was delivered; none at all for the empty pattern); plus sessions of up to 60 helper calls on one reader with advances in between.",
    note="Trusted: reference scanner (~50 lines) and the source log. Small space sampled, not enumerated.",
    tech="deterministic simulation: text helpers on the real reader over a simulated Read seam; delivered-byte accounting from the source log"),
 }
